@@ -46,8 +46,11 @@ def gen_history(rng, n, cfg):
 
 def run_case(rng, res, idx, maxlen):
     import traceback
+    from kverif.kharness import NonFiniteData
     try:
         return _run_case(rng, res, idx, maxlen)
+    except NonFiniteData:
+        res.skip('torch produced non-finite data for finite inputs')
     except Exception:  # noqa: BLE001  an exception escaping the real code in a valid history
         tb = traceback.format_exc()
         from kverif.common import REPO
